@@ -37,6 +37,7 @@ type pipe struct {
 	cutAt    int64 // >0: connection is reset once this many bytes have been written
 	flipAt   int64 // >0: the byte with this (1-based) index is corrupted
 	onCut    func()
+	fired    bool
 	rdl, wdl time.Time
 }
 
@@ -163,11 +164,13 @@ func (c *Conn) Write(b []byte) (int, error) {
 	if p.flipAt > 0 && p.total < p.flipAt && p.total+int64(len(data)) >= p.flipAt {
 		data[p.flipAt-p.total-1] ^= 0x5a
 		p.flipAt = 0
+		p.fired = true
 	}
 	cut := false
 	if p.cutAt > 0 && p.total+int64(len(data)) >= p.cutAt {
 		data = data[:p.cutAt-p.total]
 		cut = true
+		p.fired = true
 	}
 	p.total += int64(len(data))
 	p.buf = append(p.buf, data...)
@@ -272,6 +275,13 @@ func (p *Pair) FlipByte(end *Conn, n int64) {
 	end.wr.mu.Unlock()
 }
 
+// FaultFired reports whether a FlipByte / CutAfter armed on the given end has taken effect.
+func (p *Pair) FaultFired(end *Conn) bool {
+	end.wr.mu.Lock()
+	defer end.wr.mu.Unlock()
+	return end.wr.fired
+}
+
 // Dead reports whether nothing can flow any more.
 func (p *Pair) Dead() bool {
 	p.Dialer.rd.mu.Lock()
@@ -339,7 +349,9 @@ var (
 	cur   *Net
 )
 
-func New() *Net { return &Net{listeners: map[string]*Listener{}, Refuse: map[string]bool{}, nextPort: 40000} }
+func New() *Net {
+	return &Net{listeners: map[string]*Listener{}, Refuse: map[string]bool{}, nextPort: 40000}
+}
 
 // Use installs the network used by the package-level Listen/Dial functions.
 func Use(n *Net) {
